@@ -9,10 +9,10 @@
    that changed since the previous read; the LAST one is the read after the
    join).
 
-     conc_mismatches    : the model (primitive-float kernels) run on the threads
-                          one after the other - by C19c_counters_order_independent
-                          its counters are those of EVERY interleaving - has other
-                          counters than the implementation after the join
+     conc_mismatches    : the model run on the threads one after the other - by
+                          C19c_counters_order_independent its counters are those of
+                          EVERY interleaving - has other counters than the
+                          implementation after the join
      conc_spec_failures : the recount of Spec/StatsSpec.v over everything that was
                           queued, applied to the IMPLEMENTATION's reads:
                           code k (1..13) = the k-th counter after the join differs
@@ -60,13 +60,19 @@ Fixpoint first_diff (a b : list Z) (k : nat) : nat :=
 Definition all_events (ths : list (list segment)) : list event := concat (expand_threads ths).
 
 (* ---- correspondence ---- *)
+(* The counters of the model do not depend on the float kernels (they are the
+   recount for EVERY choice of kernels, C19c_counters_kernel_independent), so
+   the model is executed with the trivial kernels on [unit]: the counters it
+   yields are those of the primitive-float instance used by the other sets. *)
+Definition urun (ssrc rate : Z) (evs : list event) : st unit :=
+  run tt (fun _ _ => 0) (fun _ _ _ => tt) (fun _ _ => tt) (fun _ => tt) (fun _ => 0) (fun _ => 0) ssrc rate evs.
 Definition frun (ssrc rate : Z) (evs : list event) : st float :=
   run 0%float sk_units sk_jitter sk_rjitter sk_frac sk_delay frac_kernel ssrc rate evs.
 
 Definition conc_ok (c : cconc) : bool :=
   let '(s, rate, ths, ds) := c in
   match rev (expand obs0 ds) with
-  | final :: _ => zlist_eqb (counters (frun s rate (all_events ths))) (obs_counters final)
+  | final :: _ => zlist_eqb (counters (urun s rate (all_events ths))) (obs_counters final)
   | [] => false
   end.
 
